@@ -80,8 +80,18 @@ MODULES = [
         dict(name='R-closure-spec:mov-prev', pat='self.recursive_index_block(reader, |c| c.move_on_prev())',
              rep='self.recursive_index_block(reader, |c: &mut BlockCursor<Block>| -> (r: Option<(&[u8], &[u8])>) requires (*c).wf() ensures mover_post(MovKind::Prev, *old(c), *final(c), r) { c.move_on_prev() }, Ghost(MovKind::Prev))'),
         dict(name='R-ghost-arg:init-1', pat='self.initial_index_blocks(reader, mov)?', rep='self.initial_index_blocks(reader, mov, Ghost(kind))?'),
+        dict(name='R-iter-mut-index:none-arm', pat='None => self.inner = self.initial_index_blocks(reader, mov, Ghost(kind))?,', rep='false => self.inner = self.initial_index_blocks(reader, mov, Ghost(kind))?,'),
         dict(name='R-ghost-arg:init-2', pat='self.initial_index_blocks(&mut reader, &mut mov)?', rep='self.initial_index_blocks(&mut *reader, &mut mov, Ghost(kind))?'),
         dict(name='R-byval-handle:ibc-recursive', pat='recursive(&mut reader, self.compression_type, inner, &mut mov)', rep='recursive(&mut *reader, self.compression_type, inner, &mut mov)'),
+        # R-iter-mut-index: `match self.inner.as_mut() { Some(inner) => { ..; for (offset, cursor) in inner { B } } None => X }` becomes
+        # `match self.inner.is_some() { true => { ..; let mut vi = 0; while vi < self.inner.as_ref().unwrap().len() {
+        #    let ve = &mut self.inner.as_mut().unwrap()[vi]; let offset = &mut ve.0; let cursor = &mut ve.1; B; vi += 1 } } false => X }`
+        # (same element order, same statements B on the same element; `vi += 1;` is appended by the spec's loop_end part; B has no
+        # `continue`). Needed because Verus cannot relate a reborrow taken OUTSIDE a loop to `final(self)` at an exit INSIDE the loop.
+        dict(name='R-iter-mut-index', pat='match self.inner.as_mut() {\n            Some(inner) => {\n                let mut jump_to_offset = self.base_block_offset;\n                for (offset, cursor) in inner {',
+             rep='match self.inner.is_some() {\n            true => {\n                let mut jump_to_offset = self.base_block_offset;\n                let mut vi: usize = 0;\n                while vi < self.inner.as_ref().unwrap().len() {\n                    let ve = &mut self.inner.as_mut().unwrap()[vi];\n                    let offset = &mut ve.0;\n                    let cursor = &mut ve.1;'),
+        dict(name='R-closure-spec:last', pat='.and_then(|inner| inner.last())',
+             rep='.and_then(|inner: &Vec<(u64, BlockCursor<Block>)>| -> (r: Option<&(u64, BlockCursor<Block>)>) ensures (inner@.len() == 0 ==> r is None) && (inner@.len() > 0 ==> r is Some && *(r->0) == inner@.last()) { inner.last() })'),
         dict(name='R-closure-spec:filter-le', pat='.map(|opt| opt.filter(|(key, _)| *key <= target_key))',
              rep='.map(|opt: Option<(&[u8], &[u8])>| -> (r: Option<(&[u8], &[u8])>) ensures r == (if opt is Some && lex_le((opt->0).0@, target_key@) { opt } else { None::<(&[u8], &[u8])> }) { proof { crate::vstubs::axiom_slice_u8_obeys(); if opt is Some { crate::vstubs::axiom_slice_u8_ord((opt->0).0, target_key); } } opt.filter(|e: &(&[u8], &[u8])| -> (b: bool) ensures b == lex_le(e.0@, target_key@) { proof { crate::vstubs::axiom_slice_u8_obeys(); crate::vstubs::axiom_slice_u8_ord(e.0, target_key); } e.0 <= target_key }) })'),
         dict(name='R-closure-spec:filter-eq', pat='.map(|opt| opt.filter(|(k, _)| *k == key))',
